@@ -210,7 +210,10 @@ def octets(case, ctx):
 # ---------------------------------------------------------------------------
 CONTAINERS = ["pubkey_der", "spki_der", "spki_pem", "cert", "req", "ske", "cke", "tls13_server_share", "tls13_client_share"]
 cont_case = st.fixed_dictionaries({"cls": st.sampled_from(CLASSES), "k": st.integers(1, 1 << 40).map(h), "v": gen.z256(),
-                                   "cont": st.sampled_from(CONTAINERS)})
+                                   "cont": st.sampled_from(CONTAINERS),
+                                   # other octet-string shapes than 04||x||y, for the containers that carry a length of their own
+                                   "shape": st.sampled_from(["full", "full", "full", "inf1", "empty", "comp", "short64", "long66", "inf65", "hybrid"])})
+SHAPED_CONTAINERS = ("pubkey_der", "spki_der", "spki_pem", "cert", "req", "tls13_server_share", "tls13_client_share")
 
 
 def _from_der(l, fn, der, dst, *extra):
@@ -282,11 +285,11 @@ def _import_via(l, cont, oc):
             r = l.tls_record_get_handshake_client_key_exchange_ecdhe(rb, pt)
         return r, pt
     if cont == "tls13_server_share":
-        ext = (41).to_bytes(2, "big") + (65).to_bytes(2, "big") + oc
+        ext = (41).to_bytes(2, "big") + len(oc).to_bytes(2, "big") + oc
         pt = Buf(96, fill=0)
         return l.tls13_process_server_key_share(Buf.of(ext), len(ext), pt), pt
     if cont == "tls13_client_share":
-        entry = (41).to_bytes(2, "big") + (65).to_bytes(2, "big") + oc
+        entry = (41).to_bytes(2, "big") + len(oc).to_bytes(2, "big") + oc
         ext = len(entry).to_bytes(2, "big") + entry
         pt = Buf(96, fill=0)
         sk = key_in(9, None)
@@ -301,8 +304,23 @@ def containers(case, ctx):
     l = lib(ctx.variant)
     cls, cont = case["cls"], case["cont"]
     x, y = _point_for(cls, u(case["k"]), u(case["v"]))
-    ctx.case(nontrivial=True, classes=[cls, cont], ident=case, sample=case)
+    shape = case.get("shape", "full") if cont in SHAPED_CONTAINERS else "full"
+    ctx.case(nontrivial=True, classes=[cls, cont, "shape:" + shape], ident=case, sample=case)
     oc = b"\x04" + M.i2b(x) + M.i2b(y)
+    if shape != "full":
+        # the point field of the container holds something that is not a 65-byte uncompressed encoding
+        oc2 = {"inf1": b"\x00", "empty": b"", "comp": bytes([2 + (y & 1)]) + M.i2b(x), "short64": oc[:64], "long66": oc + b"\x00",
+               "inf65": b"\x00" + bytes(64), "hybrid": bytes([6 + (y & 1)]) + oc[1:]}[shape]
+        r, dst = _import_via(l, cont, oc2)
+        if shape in ("comp", "hybrid"):
+            # optional SEC1 forms: when a container takes them, the result must be the encoded point and the encoding must be valid
+            if r == 1:
+                ctx.check(_valid(x, y) and pt_get(dst)[0] == (x, y), "import via %s accepts the %s form %s as %s" % (cont, shape, oc2.hex(), pt_get(dst)[0]),
+                          "cont/%s/shape-%s" % (cont, shape))
+        else:
+            ctx.check(r != 1, "import via %s accepts a point field of %d bytes (%s%s) as %s" % (cont, len(oc2), oc2[:8].hex(), "..." if len(oc2) > 8 else "",
+                                                                                                 pt_get(dst)[0] if r == 1 else None), "cont/%s/shape-%s" % (cont, shape))
+        return
     r, dst = _import_via(l, cont, oc)
     _check_import(ctx, "import via " + cont, r, dst, x, y, "cont/" + cont)
     if r == 1:
